@@ -85,7 +85,13 @@ def replay(pid, r, rundir):
     modpath = 'crate::' + name
     body = []
     names = []
+    seen = set()
     for t in tests:
+        m0 = re.search(r'fn (kani_concrete_playback_\w+)', t)
+        if m0 and m0.group(1) in seen:
+            continue   # Kani prints one test per failed check; identical inputs give identical names
+        if m0:
+            seen.add(m0.group(1))
         t = re.sub(r'kani::concrete_playback_run\(\s*concrete_vals\s*,\s*%s\s*\)' % re.escape(fn),
                    'kani::concrete_playback_run(concrete_vals, %s)' % modpath, t)
         # Kani copies the (possibly multi-line) check description into a `///` comment without
